@@ -6,6 +6,7 @@ import (
 	"go/token"
 	"go/types"
 	"math/big"
+	"sort"
 	"strings"
 
 	"golang.org/x/tools/go/ssa"
@@ -258,6 +259,7 @@ func (e *Enc) applyContract(fr *Frame, x *ssa.Call, callee *ssa.Function, con *F
 	e.havocAssigns(fr, con, env, st, args, "call_"+callee.Name())
 	res := e.havocResults(fr, x, "r_"+callee.Name())
 	env2 := e.envForCall(callee, args, res, st, &pre)
+	env2.calleeFresh = true
 	for _, cl := range con.ensures {
 		t, err := env2.evalBool(cl.expr)
 		if err != nil {
@@ -541,6 +543,7 @@ func (e *Enc) applyTypeContract(fr *Frame, x *ssa.Call, tc *FuncContract, f Val,
 	e.havocAssigns(fr, tc, env, st, args, "dyn_"+tc.key)
 	res := e.havocResults(fr, x, "r_"+tc.key)
 	env2 := e.typeContractEnv(tc, sig, f, c.Value.Type(), args, res, st, &pre)
+	env2.calleeFresh = true
 	for _, cl := range tc.ensures {
 		t, err := env2.evalBool(cl.expr)
 		if err != nil {
@@ -587,6 +590,7 @@ func (e *Enc) invoke(fr *Frame, x *ssa.Call, st *State, recv Val, args []Val) {
 		e.havocAssigns(fr, ic, env, st, args, "inv_"+ic.key)
 		res := e.havocResults(fr, x, "r_"+c.Method.Name())
 		env2 := mk(res, st)
+		env2.calleeFresh = true
 		for _, cl := range ic.ensures {
 			t, err := env2.evalBool(cl.expr)
 			if err != nil {
@@ -961,10 +965,19 @@ func (e *Enc) closureAtCreation(fr *Frame, x *ssa.MakeClosure, c *Term, st *Stat
 	pkg := e.L.typesPkg(con.pkg)
 	var tc *FuncContract
 	var ftype types.Type
-	if obj := pkg.Scope().Lookup(spec.typeName); obj != nil {
+	tpkg, tname := pkg, spec.typeName
+	if i := strings.Index(tname, "."); i >= 0 { // imported type: funcGen.ParserFunc
+		for _, imp := range pkg.Imports() {
+			if imp.Name() == tname[:i] {
+				tpkg = imp
+			}
+		}
+		tname = tname[i+1:]
+	}
+	if obj := tpkg.Scope().Lookup(tname); obj != nil {
 		if tn, ok := obj.(*types.TypeName); ok {
 			ftype = tn.Type()
-			tc = e.L.contracts.types[con.pkg+"::"+spec.typeName]
+			tc = e.L.contracts.types[tpkg.Path()+"::"+tname]
 		}
 	}
 	label := spec.anchor
@@ -977,6 +990,18 @@ func (e *Enc) closureAtCreation(fr *Frame, x *ssa.MakeClosure, c *Term, st *Stat
 		if ta := fr.fn.TypeArgs(); len(ta) == n.TypeParams().Len() {
 			if inst, err := types.Instantiate(nil, n, ta, false); err == nil {
 				ftype = inst
+			}
+		}
+	}
+	if n, ok := ftype.(*types.Named); ok && n.TypeParams().Len() > 0 && n.TypeArgs().Len() == 0 {
+		// not instantiated yet: take the instance the literal is converted to
+		if refs := x.Referrers(); refs != nil {
+			for _, r := range *refs {
+				if ct, isCT := r.(*ssa.ChangeType); isCT {
+					if inst, isNamed := ct.Type().(*types.Named); isNamed && inst.Origin() == n.Origin() {
+						ftype = inst
+					}
+				}
 			}
 		}
 	}
@@ -995,23 +1020,66 @@ func (e *Enc) closureAtCreation(fr *Frame, x *ssa.MakeClosure, c *Term, st *Stat
 		}
 		e.assume(st.reach, tb.Eq(tv.t, vv.t))
 	}
-	// entry state of a later invocation: everything unknown except the captured variables
+	if spec.trusted {
+		e.modelled("TRUSTED function literal (ghost attributes assumed, body not verified): " + label)
+		return
+	}
+	// entry state of a later invocation: everything unknown except (a) the captured variables, (b) objects allocated
+	// during this call of the enclosing function (they are reachable only through what the literal captured and are not
+	// written again by the enclosing function), (c) registers declared `immutable`
+	// everything assumed while the body of the literal is encoded is visible only to the obligations of that body
+	e.nscope++
+	e.curScope = e.nscope
+	wfSaved := make(map[int]bool, len(e.wfDone))
+	for k, v := range e.wfDone {
+		wfSaved[k] = v
+	}
+	defer func() {
+		e.curScope = 0
+		e.wfDone = wfSaved
+	}()
 	entry := st.clone()
-	var keep []*allocInfo
+	before := entry.clone()
+	entry.heap = map[string]*Term{}
+	entry.ep = e.newEpoch()
+	entry.ep.cloParent = &before
+	var regNames []string
+	for n := range before.heap {
+		regNames = append(regNames, n)
+	}
+	sort.Strings(regNames)
+	for _, n := range regNames {
+		r := e.regs[n]
+		if r == nil || strings.HasPrefix(n, "W:") {
+			continue
+		}
+		if e.immutableReg(n) {
+			e.setReg(&entry, r, e.reg(&before, r))
+			continue
+		}
+		is, _ := arrayElemSort(r.sort)
+		if is != RefSort || !r.elem || !e.sortMentionsFn(r.typ, 0) {
+			continue // only slices of compiled functions (argument lists, case tables) are carried into the literal
+		}
+		fresh := tb.BoundVar("cr", RefSort)
+		nh := tb.Fresh("clo_entry_"+n, r.sort)
+		e.assume(tb.True(), tb.Forall([]*Term{fresh}, tb.Imp(tb.Lt(fresh, tb.Int(0)), tb.Eq(tb.Select(nh, fresh), tb.Select(e.reg(&before, r), fresh)))))
+		e.setReg(&entry, r, nh)
+	}
+	for n := range e.regs {
+		if _, done := entry.heap[n]; !done && e.immutableReg(n) {
+			e.setReg(&entry, e.regs[n], e.reg(&before, e.regs[n]))
+		}
+	}
+	// (a) the captured variables themselves
 	for _, b := range x.Bindings {
 		bt := e.val(fr, b).t()
 		for _, a := range e.allocs {
 			if a.ref == bt {
-				keep = append(keep, a)
+				for _, r := range e.allocRegs(a) {
+					e.setReg(&entry, r, tb.Store(e.reg(&entry, r), a.ref, tb.Select(e.reg(&before, r), a.ref)))
+				}
 			}
-		}
-	}
-	before := entry.clone()
-	entry.heap = map[string]*Term{}
-	entry.ep = e.newEpoch()
-	for _, a := range keep {
-		for _, r := range e.allocRegs(a) {
-			e.setReg(&entry, r, tb.Store(e.reg(&entry, r), a.ref, tb.Select(e.reg(&before, r), a.ref)))
 		}
 	}
 	guard := tb.Fresh("invoked_"+fn.Name(), "Bool")
@@ -1037,9 +1105,30 @@ func (e *Enc) closureAtCreation(fr *Frame, x *ssa.MakeClosure, c *Term, st *Stat
 		}
 		e.assume(entry.reach, t)
 	}
+	for _, cl := range tc.relies {
+		t, err := renv.evalBool(cl.expr)
+		if err != nil {
+			e.contractError(fr, "closure-spec:"+label, err)
+			continue
+		}
+		e.assume(entry.reach, t)
+		e.modelled("rely condition of " + tc.key + " (assumed for every implementation, not checked at call sites): " + cl.text)
+	}
 	for _, cl := range spec.assumes {
 		// evaluated over the captured variables in the state of the later invocation
-		cenv := e.envAt(fr, &entry, nil)
+		// variables denote the values they had when the literal was created; the heap is that of the later invocation
+		cenv := e.envAt(fr, &before, nil)
+		cenv.st = &entry
+		// variables the enclosing function only mentions inside the literal (e.g. the variable of a type switch)
+		for i, fv := range fn.FreeVars {
+			if _, have := cenv.vars[fv.Name()]; have || i >= len(binds) {
+				continue
+			}
+			if pt, okp := fv.Type().Underlying().(*types.Pointer); okp {
+				ad := e.addrOf(binds[i], pt.Elem())
+				cenv.vars[fv.Name()] = SV{t: e.load(&before, ad), typ: pt.Elem(), addr: ad}
+			}
+		}
 		t, err := cenv.evalBool(cl.expr)
 		if err != nil {
 			e.contractError(fr, "closure-spec:"+label, err)
@@ -1049,7 +1138,13 @@ func (e *Enc) closureAtCreation(fr *Frame, x *ssa.MakeClosure, c *Term, st *Stat
 		e.modelled("closure-spec assumption (state captured by a function literal is not modified before it is invoked): " + cl.text)
 	}
 	savedCtx, savedStack := e.ctx, e.stack
-	res, out, sub := e.encodeFunc(fn, args, binds, entry, fr, nil, nil)
+	// loop invariants of the literal: a `closure <Func> anchor "<same anchor>"` block
+	var lcon *FuncContract
+	if own := e.L.contracts.funcs[con.pkg+"::"+con.key+"@"+spec.anchor]; own != nil {
+		lcon = &FuncContract{pkg: own.pkg, key: own.key, kind: "closure-body", invs: own.invs, variants: own.variants, opts: map[string]string{}}
+		own.used = true
+	}
+	res, out, sub := e.encodeFunc(fn, args, binds, entry, fr, lcon, nil)
 	e.ctx, e.stack = savedCtx, savedStack
 	_ = sub
 	if len(res) == 0 {
@@ -1074,9 +1169,44 @@ func (e *Enc) closureAtCreation(fr *Frame, x *ssa.MakeClosure, c *Term, st *Stat
 func (e *Enc) envAt(fr *Frame, st *State, head *ssa.BasicBlock) *evalEnv {
 	env := &evalEnv{e: e, st: st, old: &fr.entry, vars: map[string]SV{}, bound: map[string]SV{}, fn: fr.fn}
 	env.pkg = e.L.typesPkg(funcPkgPath(fr.fn))
+	if fr.con != nil && fr.con.pkg != "" {
+		if p := e.L.typesPkg(fr.con.pkg); p != nil {
+			env.pkg = p
+		}
+	}
+	env.oldVars = map[string]SV{}
 	for _, p := range fr.fn.Params {
 		if v, ok := fr.vals[p]; ok {
 			env.vars[p.Name()] = SV{t: v.t(), typ: p.Type(), addr: v.Addr, pointee: v.Addr != nil}
+			env.oldVars[p.Name()] = env.vars[p.Name()]
+		}
+	}
+	// a parameter whose address is taken lives in a cell (`t0 = new T (p); *t0 = p`): its name denotes the cell's content
+	if len(fr.fn.Blocks) > 0 {
+		for _, in := range fr.fn.Blocks[0].Instrs {
+			sto, ok := in.(*ssa.Store)
+			if !ok {
+				continue
+			}
+			p, isParam := sto.Val.(*ssa.Parameter)
+			al, isAlloc := sto.Addr.(*ssa.Alloc)
+			if !isParam || !isAlloc || al.Comment != p.Name() {
+				continue
+			}
+			if v, ok := fr.vals[al]; ok {
+				ad := e.addrOf(v, p.Type())
+				env.vars[p.Name()] = SV{t: e.load(st, ad), typ: p.Type(), addr: ad}
+			}
+		}
+	}
+	for _, p := range fr.fn.FreeVars {
+		if v, ok := fr.vals[p]; ok {
+			if pt, ok := p.Type().Underlying().(*types.Pointer); ok {
+				ad := e.addrOf(v, pt.Elem())
+				env.oldVars[p.Name()] = SV{t: e.load(&fr.entry, ad), typ: pt.Elem(), addr: ad}
+			} else {
+				env.oldVars[p.Name()] = SV{t: v.t(), typ: p.Type()}
+			}
 		}
 	}
 	for _, p := range fr.fn.FreeVars {
@@ -1155,7 +1285,19 @@ func (e *Enc) envAt(fr *Frame, st *State, head *ssa.BasicBlock) *evalEnv {
 				continue
 			}
 			var sv SV
-			if x.IsAddr {
+			cell := false
+			if u, isLoad := x.X.(*ssa.UnOp); isLoad && !x.IsAddr && u.Op == token.MUL {
+				// a load of the variable's own cell: the name denotes the cell's current content, not the value loaded then
+				if al, isAlloc := u.X.(*ssa.Alloc); isAlloc && al.Comment == id.Name {
+					if av, okA := fr.vals[al]; okA {
+						ad := e.addrOf(av, x.X.Type())
+						sv = SV{t: e.load(st, ad), typ: x.X.Type(), addr: ad}
+						cell = true
+					}
+				}
+			}
+			if cell {
+			} else if x.IsAddr {
 				pt, okp := x.X.Type().Underlying().(*types.Pointer)
 				if !okp {
 					continue
@@ -1241,4 +1383,22 @@ func (e *Enc) pureCallee(fr *Frame, v ssa.Value) (string, bool) {
 		}
 	}
 	return "", false
+}
+
+// sortMentionsFn: values of the type contain function values (directly or in struct fields).
+func (e *Enc) sortMentionsFn(t types.Type, depth int) bool {
+	if t == nil || depth > 3 {
+		return false
+	}
+	switch u := t.Underlying().(type) {
+	case *types.Signature:
+		return true
+	case *types.Struct:
+		for i := 0; i < u.NumFields(); i++ {
+			if e.sortMentionsFn(u.Field(i).Type(), depth+1) {
+				return true
+			}
+		}
+	}
+	return false
 }
